@@ -91,6 +91,8 @@ SKIP_METHODS = {"get_params", "set_params", "__init__", "__repr__", "__str__", "
                 "__setstate__", "__eq__", "__hash__", "test_equality", "__sklearn_tags__", "_more_tags",
                 "_get_tags", "__sklearn_clone__"}
 MAX_INLINE_DEPTH = 5
+#: pseudo-name standing for "the caller's arrays" when a component is told not to copy its input
+COPY_OPT_OUT = "$caller-data(copy opt-out)"
 #: fitted attributes the fit of an external (scikit-learn) parent class (re)writes on success
 EXTERNAL_FIT_WRITES = {
     "KMeans": ["cluster_centers_", "labels_", "inertia_", "n_iter_", "n_features_in_", "_n_features_out",
@@ -504,6 +506,12 @@ class Translator:
                 b = self.base_name(k.value, env)
                 if b:
                     out.append(("atom", ("mutate", b)))
+            # opting out of the defensive copy of a scikit-learn component: allowed only when it is the user's own
+            # choice (the literal True, or the estimator's hyper-parameter of the same name passed through)
+            if k.arg in ("copy_X", "copy_x", "overwrite_a", "overwrite_b", "inplace") and not (
+                    (isinstance(k.value, ast.Constant) and k.value.value is (k.arg in ("copy_X", "copy_x")))
+                    or ast.unparse(k.value) in ("self.copy_X", "self.copy_x", "copy_X", "copy_x")):
+                out.append(("atom", ("mutate", COPY_OPT_OUT)))
         if isinstance(f, ast.Attribute):
             recv = f.value
             # in-place method on a name / attribute
